@@ -200,6 +200,61 @@ func aggregate(obs []*Oblig) map[string]*Agg {
 			a.Status = "infeasible"
 		}
 	}
+	// nopanic[total]: one summary obligation per function under a nopanic contract -- it is discharged
+	// iff every panic-freedom obligation of the function is. It is part of the baseline, so a panic
+	// site ADDED by a change (a new obligation name) still turns a baseline obligation red.
+	panicKinds := map[string]bool{"nil": true, "idx": true, "slice": true, "div": true, "panic": true, "close": true,
+		"makeslice": true, "nilmap": true, "typeassert": true, "send": true, "lossless": true, "alloc": true, "deadlock": true}
+	type tot struct {
+		status, detail string
+		proto         *Oblig
+		secs          float64
+		insts         []*Oblig
+	}
+	totals := map[string]*tot{}
+	for _, a := range out {
+		if len(a.Insts) == 0 || a.Insts[0].Spec == nil {
+			continue
+		}
+		// two summaries: panic freedom (functions under nopanic) and lock discipline (every function)
+		group := "lockset"
+		if a.Kind != "lockset" {
+			if !a.Insts[0].Spec.NoPanic {
+				continue
+			}
+			group = "nopanic"
+		}
+		fn := a.Insts[0].Fn + "#" + group
+		t := totals[fn]
+		if t == nil {
+			t = &tot{status: "discharged", proto: a.Insts[0]}
+			totals[fn] = t
+		}
+		if group == "nopanic" && !panicKinds[a.Kind] {
+			continue
+		}
+		t.secs += a.Secs
+		switch a.Status {
+		case "discharged":
+		case "refuted":
+			if t.status != "refuted" {
+				t.status, t.detail = "refuted", a.Name+" "+a.Detail
+				t.insts = a.Insts
+			}
+		default:
+			// undecided obligations do not turn the summary red (they are reported on their own);
+			// only a counter-model does -- that is independent of solver timing
+		}
+	}
+	for fn, t := range totals {
+		n := fn + "[total]"
+		o := &Oblig{Name: n, Kind: "nopanic", Fn: t.proto.Fn, Status: t.status, Solver: "summary", Props: t.proto.Spec.Props, FnObj: t.proto.FnObj, Spec: t.proto.Spec, Detail: t.detail, Expect: "unsat"}
+		ag := &Agg{Name: n, Status: t.status, N: 1, Secs: 0, Solver: "summary", Detail: t.detail, Insts: []*Oblig{o}, Kind: "nopanic"}
+		if t.insts != nil {
+			ag.Insts = t.insts // the refuted panic-freedom obligation: its query and model go into the replay file
+		}
+		out[n] = ag
+	}
 	return out
 }
 
